@@ -160,6 +160,10 @@ func runCheck(eng *Engine, start time.Time) int {
 			os.WriteFile(f2, []byte(s2), 0644)
 			ob.File = f1
 			j := job{u: u, ob: ob, z3file: f1, cvcfile: f2}
+			forceSplit := u.Contract.Flags["casesplit"] != ""
+			if igoal == nil && forceSplit {
+				ias, igoal = as, goal
+			}
 			if igoal != nil {
 				// case split on at most three append outcomes occurring in this VC, then instantiate each case
 				var splits []*Term
